@@ -63,6 +63,11 @@ def step (os : OState) (line : String) : OState × String :=
         else if obs = want then "ok"
         else if obs.startsWith "200:" then "bad:path-or-query-not-passed-through-unchanged"
         else "ok"))   -- a target net/http itself refuses: no claim
+    else if (fs.drop 1).head? = some "crowd" then
+      -- C08 / C10: concurrent clients with different targets: each gets the answer to ITS request
+      (os, "all-own-answers\t" ++ (if obs.startsWith "panic" then "bad:panic"
+        else if obs = "all-own-answers" then "ok"
+        else "bad:path-or-query-not-passed-through-unchanged"))
     else if (fs.drop 1).head? = some "tunnelhist" then
       -- C10: however many requests a tunnel carries, each gets the answer to its own request
       (os, "all-own-answers\t" ++ (if obs.startsWith "panic" then "bad:panic"
